@@ -370,3 +370,19 @@ class SeqEnv:
             from coba.environments import Batch
             return Batch(self.batch).filter(self._items())
         return self._items()
+
+
+class Head:
+    """a deterministic user-defined environment filter: the first k interactions (phase 5: fan-out behind a shared
+    chunk()/cache() prefix in front of `SeqEnv`)"""
+
+    def __init__(self, k):
+        self.k = k
+
+    @property
+    def params(self):
+        return {"head": self.k}
+
+    def filter(self, interactions):
+        import itertools
+        return itertools.islice(interactions, self.k)
